@@ -20,18 +20,14 @@
                                  src/ods.rs                 ods_attrs / od_step / ods_cell
    S (spec): item_text, tc_text, content_text — the text an element denotes per ECMA-376 /
      ODF 1.2.   E (encoders): item_events, sst_events, cell_events, content_events, with the
-     storage-form choices as their arguments; legal_* predicates; known_* classes.
-   Source state: /repo at db4dbf4 (CDATA sections are text in <t>/<v>/<f>/text:p; read_string
-   compares its end tag by qualified name).
-
-   THREE SWITCHES.  The three behaviours of the current code that still deviate from S are each
-   ONE definition, used by the models below and by the known_* predicates:
-       xstring_decode_on_read   what read_string / read_v do to the accumulated characters of a
-                                <t> / <v t="str">   (now: nothing;  after a fix of F37: xunescape)
-       ods_tab_text             what <text:tab/> appends        (now: [];  after a fix of F35: [9])
-       ods_break_text           what <text:line-break/> appends (now: [];  after a fix of F36: [10])
-   known_* compare these with S, so a class disappears by itself when its switch is flipped;
-   notes/C19.md lists the lines to touch.
+     storage-form choices as their arguments; legal_* predicates.
+   Source state: /repo at 9abe48a (6af5287 + the C06 hardening: a shared-string index outside
+   the table is an error, Eof inside office:annotation is an error; no transition of any loop
+   below can panic any more and none needs fuel): CDATA sections are text in <t>/<v>/<f>/text:p (db4dbf4),
+   read_string compares its end tag by qualified name (7dba6c7), ods <text:tab/> and
+   <text:line-break/> append TAB / LF (69a4591), the characters of a <t> and of the <v> of a
+   t="str" cell go through unescape_xstring (6af5287).  No known class is left: there are no
+   known_* predicates any more.
    Definitions only (executable); proofs are in XmlText_proofs.v. *)
 From Calamine Require Import Prelude.
 From Coq Require Strings.String Strings.Ascii.
@@ -152,6 +148,7 @@ Definition ERR_EOF : N := 1.
 Definition ERR_NODE : N := 2.          (* UnexpectedNode("v, f, or is") *)
 Definition ERR_TATTR : N := 3.         (* CellTAttribute / Unexpected *)
 Definition ERR_PARSEINT : N := 4.
+Definition ERR_INDEX : N := 5.         (* Unexpected("shared string index out of bounds") *)
 
 (* result of one transition of a reader loop *)
 Inductive step_res (S R : Type) : Type :=
@@ -165,13 +162,14 @@ Arguments Fail {S R} e.
 Arguments Boom {S R}.
 
 (* ====================================================================================== *)
-(*                 ECMA-376 ST_Xstring (part of S) and the three switches                  *)
+(*          ECMA-376 ST_Xstring: S (xunescape), E (xescape), M (unescape_xstring)          *)
 (* ====================================================================================== *)
-(* ST_Xstring (ECMA-376 Part 1, 22.9.2.19): _xHHHH_ stands for the character with that code
-   (that is how Excel stores CR and the characters XML 1.0 cannot carry; a literal "_x" is
-   written _x005F_x).  One left-to-right pass; decoded characters are not examined again.  An
-   escape naming a surrogate code unit (D800-DFFF) does not denote a character and stays as
-   written (a Rust String could not hold it either). *)
+(* S.  ST_Xstring (ECMA-376 Part 1, 22.9.2.19): _xHHHH_ stands for the character with that code
+   (that is how Excel stores CR and the characters XML 1.0 cannot carry; a literal underscore
+   that would otherwise start an escape is written _x005F_).  Lower-case x, exactly four hex
+   digits of either case, closing underscore.  One left-to-right pass; decoded characters are
+   not examined again.  An escape naming a surrogate code unit (D800-DFFF) does not denote a
+   character and stays as written (a Rust String could not hold it either). *)
 Definition hexval (c : N) : option N :=
   if (48 <=? c) && (c <=? 57) then Some (c - 48)
   else if (65 <=? c) && (c <=? 70) then Some (c - 55)
@@ -196,16 +194,61 @@ Fixpoint xunescape (s : str) : str :=
     end
   end.
 
-(* SWITCH F37.  What the readers do to the accumulated characters of one <t> (read_string) and
-   of the <v> of a t="str" cell (read_v).  Current code: nothing.  With the proposed fix:
-   [xunescape s]. *)
-Definition xstring_decode_on_read (s : str) : str := s.
+(* E.  A writer in the style of Excel: every underscore is written _x005F_ (Excel does so only
+   where an escape would otherwise be read; escaping all of them is legal and simpler), the
+   characters selected by [must] that four hex digits can name are written _xHHHH_ (upper-case
+   digits), everything else literally. *)
+Definition hexdigit (d : N) : N := if d <? 10 then 48 + d else 55 + d.
+Definition esc4 (c : N) : str :=
+  [95; 120; hexdigit (c / 4096); hexdigit ((c / 256) mod 16); hexdigit ((c / 16) mod 16);
+   hexdigit (c mod 16); 95].
+Definition escapable (c : N) : bool := (c <? 65536) && negb (is_surrogate c).
+Definition xescape (must : N -> bool) (s : str) : str :=
+  flat_map (fun c => if (c =? 95) || (must c && escapable c) then esc4 c else [c]) s.
+(* what Excel escapes: C0 controls other than TAB and LF (so CR is), U+FFFE, U+FFFF *)
+Definition excel_must (c : N) : bool :=
+  ((c <? 32) && negb (c =? 9) && negb (c =? 10)) || (c =? 65534) || (c =? 65535).
 
-(* SWITCH F35 / F36.  What ods get_datatype appends for <text:tab/> and <text:line-break/>.
-   Current code: no arm for them (they fall into `_ => ()`), i.e. nothing.  With the proposed
-   fixes: [9] and [10]. *)
-Definition ods_tab_text : str := [].
-Definition ods_break_text : str := [].
+(* M.  src/xlsx/mod.rs unescape_xstring (6af5287).  The Rust function walks the UTF-8 bytes; an
+   escape is seven ASCII bytes, i.e. seven one-byte characters, and `i` only advances by whole
+   characters or by those seven bytes, so the walk over scalar values below is the same walk
+   (seven bytes b[i..i+7] that pass the tests are seven characters and conversely). *)
+(* s.contains("_x") *)
+Fixpoint contains_ux (s : str) : bool :=
+  match s with
+  | [] => false
+  | c :: r => ((c =? 95) && match r with x :: _ => x =? 120 | [] => false end) || contains_ux r
+  end.
+(* u8::is_ascii_hexdigit / (h as char).to_digit(16) *)
+Definition is_ascii_hexdigit (c : N) : bool :=
+  ((48 <=? c) && (c <=? 57)) || ((65 <=? c) && (c <=? 70)) || ((97 <=? c) && (c <=? 102)).
+Definition to_digit16 (c : N) : N :=
+  if c <=? 57 then c - 48 else if c <=? 70 then c - 55 else c - 87.
+(* char::from_u32 on a value below 0x10000: None exactly for the surrogates *)
+Definition char_from_u32 (v : N) : option N :=
+  if (55296 <=? v) && (v <=? 57343) || (1114111 <? v) then None else Some v.
+(* one iteration of `while i < b.len()` per call *)
+Fixpoint ux_loop (s : str) : str :=
+  match s with
+  | [] => []
+  | c :: s' =>
+    match s' with
+    | x :: h1 :: h2 :: h3 :: h4 :: u :: r =>
+      (* b[i] == b'_' && i + 7 <= b.len() && b[i + 1] == b'x' && b[i + 6] == b'_' *)
+      if (c =? 95) && (x =? 120) && (u =? 95) then
+        if forallb is_ascii_hexdigit [h1; h2; h3; h4] then
+          let code := fold_left (fun a h => a * 16 + to_digit16 h) [h1; h2; h3; h4] 0 in
+          match char_from_u32 code with
+          | Some ch => ch :: ux_loop r                      (* out.push(c); i += 7; continue *)
+          | None => c :: ux_loop s'
+          end
+        else c :: ux_loop s'
+      else c :: ux_loop s'
+    | _ => c :: ux_loop s'
+    end
+  end.
+Definition unescape_xstring (s : str) : str :=
+  if negb (contains_ux s) then s else ux_loop s.
 
 (* ====================================================================================== *)
 (*                                xlsx  read_string                                        *)
@@ -239,7 +282,7 @@ Definition rs_step (closing : str) (st : rs_state) (e : event) : step_res rs_sta
     | CData s => Cont (RsInT rich tname (value ++ s))         (* Event::CData: verbatim (db4dbf4) *)
     | End n =>
       if str_eqb n tname then
-        let value' := xstring_decode_on_read value in           (* switch F37: identity today *)
+        let value' := unescape_xstring value in                 (* let value = unescape_xstring(value) *)
         match rich with
         | Some b => Cont (RsOuter (Some (b ++ value')) false)
         | None => Cont (RsSkip value' 0)                       (* early return path *)
@@ -339,13 +382,13 @@ Definition read_v (v : str) (strings : list str) (cattrs : attrs) : step_res cel
   | Some t =>
     if str_eqb t v_s then
       let idx := match parse_usize v with Some i => i | None => 0 end in      (* unwrap_or(0) *)
-      if idx <? N.of_nat (length strings) then                     (* strings[idx] *)
+      if idx <? N.of_nat (length strings) then                     (* strings.get(idx) *)
         match nth_error strings (N.to_nat idx) with
         | Some s => Cont (CString s)
-        | None => Boom
+        | None => Fail ERR_INDEX
         end
-      else Boom
-    else if str_eqb t v_str then Cont (CString (xstring_decode_on_read v))   (* switch F37 *)
+      else Fail ERR_INDEX                       (* "shared string index out of bounds" (C06 hardening) *)
+    else if str_eqb t v_str then Cont (CString (unescape_xstring v))
     else if str_eqb t v_b || str_eqb t v_e || str_eqb t v_d || str_eqb t v_n then Cont CNonText
     else Fail ERR_TATTR                                            (* "is" or unknown *)
   | None => Cont CNonText
@@ -631,9 +674,8 @@ Definition od_step (cname : str) (val : odsval) (st : od_state) (e : event)
           end
         | None => Cont (OdMain (s ++ [SPACE]) first)
         end
-      (* no arm for the next two in the current code (`_ => ()`): both switches are [] today *)
-      else if str_eqb n o_tab then Cont (OdMain (s ++ ods_tab_text) first)        (* switch F35 *)
-      else if str_eqb n o_break then Cont (OdMain (s ++ ods_break_text) first)    (* switch F36 *)
+      else if str_eqb n o_tab then Cont (OdMain (s ++ [9]) first)          (* s.push('\t') (69a4591) *)
+      else if str_eqb n o_break then Cont (OdMain (s ++ [10]) first)       (* s.push('\n') (69a4591) *)
       else Cont st
     | _ => Cont st
     end
@@ -656,11 +698,7 @@ Definition od_step (cname : str) (val : odsval) (st : od_state) (e : event)
 Fixpoint od_run (cname : str) (val : odsval) (st : od_state) (evs : list event)
   : outcome (odsval * list event) :=
   match evs with
-  | [] =>
-    match st with
-    | OdAnnot _ _ => OutOfFuel      (* the annotation loop ignores Eof: it never terminates *)
-    | _ => Err ERR_EOF
-    end
+  | [] => Err ERR_EOF               (* every loop, the annotation loop included (C06 hardening) *)
   | e :: rest =>
     match od_step cname val st e with
     | Cont st' => od_run cname val st' rest
@@ -694,10 +732,8 @@ Definition tc_raw (tc : tcontent) : str :=
 (* S: what the content denotes: the characters, then the ST_Xstring layer *)
 Definition tc_text (tc : tcontent) : str := xunescape (tc_raw tc).
 (* M: what the readers keep of it (proved in XmlText_proofs.v): every chunk, Text or CDATA,
-   then whatever the code does about ST_Xstring *)
-Definition tc_mtext (tc : tcontent) : str := xstring_decode_on_read (tc_raw tc).
-(* content on which the reader deviates from S: exactly class F37 *)
-Definition tc_bad (tc : tcontent) : bool := negb (str_eqb (tc_mtext tc) (tc_text tc)).
+   then unescape_xstring *)
+Definition tc_mtext (tc : tcontent) : str := unescape_xstring (tc_raw tc).
 
 Definition elt (pfx l : str) (a : attrs) (body : list event) : list event :=
   Start (qn pfx l) a :: body ++ [End (qn pfx l)].
@@ -771,30 +807,12 @@ Definition legal_form (f : item_form) : bool :=
   | FRich ps => forallb legal_piece ps
   end.
 
-(* known classes (F12 CDATA and F34 prefixed rich items were repaired by db4dbf4 / 7dba6c7) *)
-Definition K_F35 : N := 35.    (* ods <text:tab/> contributes nothing *)
-Definition K_F36 : N := 36.    (* ods <text:line-break/> contributes nothing *)
-Definition K_F37 : N := 37.    (* xlsx _xHHHH_ escapes (ST_Xstring) are not decoded *)
-
-Definition piece_bad (p : piece) : bool :=
-  match p with PRun _ _ tc => tc_bad tc | _ => false end.
-
-Definition known_item (f : item_form) : option N :=
-  match f with
-  | FPlain _ tc _ => if tc_bad tc then Some K_F37 else None
-  | FRich ps => if existsb piece_bad ps then Some K_F37 else None
-  end.
-
 (* the shared-string part: declaration, <sst>, per item optional white space and <si>…</si> *)
 Definition si_elt (pfx : str) (f : item_form) : list event :=
   elt pfx n_si [] (item_events pfx f).
 Definition sst_events (pfx : str) (sattrs : attrs) (items : list (str * item_form)) : list event :=
   Other :: Start (qn pfx n_sst) sattrs ::
   flat_map (fun it => Text (fst it) :: si_elt pfx (snd it)) items ++ [End (qn pfx n_sst)].
-
-Definition known_items (items : list (str * item_form)) : option N :=
-  fold_right (fun it acc => match known_item (snd it) with Some k => Some k | None => acc end)
-             None items.
 
 (* storage forms of a string cell *)
 Inductive store : Type :=
@@ -849,24 +867,6 @@ Definition legal_store (st : store) : bool :=
   | StShared _ => true
   | StInline f => legal_form f
   | StFormula _ _ => true
-  end.
-
-Definition known_store (st : store) : option N :=
-  match st with
-  | StShared _ => None
-  | StInline f => known_item f
-  | StFormula _ vtc => if tc_bad vtc then Some K_F37 else None
-  end.
-
-(* a class-F37 item only spoils the cells that point at it *)
-Definition known_xlsx (items : list (str * item_form)) (st : store) : option N :=
-  match st with
-  | StShared v =>
-    match parse_usize v with
-    | Some i => match nth_N items i with Some it => known_item (snd it) | None => None end
-    | None => None
-    end
-  | _ => known_store st
   end.
 
 (* S for worksheet_formula: the characters of <f> (Text and CDATA chunks) *)
@@ -959,28 +959,6 @@ Definition legal_citem (c : citem) : bool :=
   end.
 Definition legal_content (cs : list citem) : bool := forallb legal_citem cs.
 
-(* M: what the content loop keeps of a piece (proved in XmlText_proofs.v) *)
-Definition opiece_mtext (p : opiece) : str :=
-  match p with
-  | OTab => ods_tab_text
-  | OBreak => ods_break_text
-  | _ => opiece_text p
-  end.
-(* the classes are where the switches differ from S *)
-Definition known_opiece (p : opiece) : option N :=
-  match p with
-  | OTab => if str_eqb ods_tab_text [9] then None else Some K_F35
-  | OBreak => if str_eqb ods_break_text [10] then None else Some K_F36
-  | _ => None
-  end.
-Definition known_para (ps : list opiece) : option N :=
-  fold_right (fun p acc => match known_opiece p with Some k => Some k | None => acc end) None ps.
-Definition known_content (cs : list citem) : option N :=
-  fold_right (fun c acc => match c with
-                           | CPara ps => match known_para ps with Some k => Some k | None => acc end
-                           | CAnnot _ => acc
-                           end) None cs.
-
 (* storage forms of an ods string cell *)
 Inductive ods_store : Type :=
 | OsContent (cs : list citem)                  (* office:value-type="string", text in content *)
@@ -1005,10 +983,8 @@ Definition ods_cell_events (cname : str) (st : ods_store) : list event :=
 Definition ods_text (st : ods_store) : str :=
   match st with OsContent cs => content_text cs | OsAttr s _ => s end.
 Definition legal_ods (st : ods_store) : bool := legal_content (ods_cell_content st).
-Definition known_ods (st : ods_store) : option N :=
-  match st with OsContent cs => known_content cs | OsAttr _ _ => None end.
-
-(* a writer in the style of LibreOffice: one text:p per line, every space a <text:s/> *)
+(* a writer in the style of LibreOffice: one text:p per line, every space a <text:s/>, every
+   TAB a <text:tab/> *)
 Fixpoint split_nl_aux (cur : str) (s : str) : list str :=
   match s with
   | [] => [rev cur]
@@ -1016,6 +992,6 @@ Fixpoint split_nl_aux (cur : str) (s : str) : list str :=
   end.
 Definition split_nl (s : str) : list str := split_nl_aux [] s.
 Definition spaces_as_elements (line : str) : list opiece :=
-  map (fun c => if c =? SPACE then OSp None else OLit [c]) line.
+  map (fun c => if c =? SPACE then OSp None else if c =? 9 then OTab else OLit [c]) line.
 Definition ods_encode (s : str) : list citem :=
   map (fun line => CPara (spaces_as_elements line)) (split_nl s).
